@@ -236,8 +236,9 @@ let do_seq line args res =
 
 (* ------------------------------------------------------------ class sf *)
 type sfst = { mutable vs : vsys; mutable modeE : bool; mutable base : z; mutable stride : z;
-              begk : (int, int * string) Hashtbl.t; mutable nsp : int; reported : (int, unit) Hashtbl.t }
-let sfs = ref { vs = init_vsys (nat_of 8); modeE = true; base = Z0; stride = Z0; begk = Hashtbl.create 8; nsp = 0; reported = Hashtbl.create 8 }
+              begk : (int, int * string) Hashtbl.t; mutable nsp : int; reported : (int, unit) Hashtbl.t;
+              excused : (int, unit) Hashtbl.t   (* validators whose own ctx was cancelled, or that were unfinished when PD was made to fail *) }
+let sfs = ref { vs = init_vsys (nat_of 8); modeE = true; base = Z0; stride = Z0; begk = Hashtbl.create 8; nsp = 0; reported = Hashtbl.create 8; excused = Hashtbl.create 8 }
 let sf_pd s = fun k -> zadd s.base (zmul (z_of_int (int_of_nat k)) s.stride)
 let sf_ev s e = s.vs <- vstep (sf_pd s) true s.vs e
 let sf_quiesce s =
@@ -262,7 +263,7 @@ let sf_state s =
   let outs = List.init s.nsp (fun t -> match voutcome_of s.vs (nat_of t) with
     | Some OAccept -> "accept" | Some (OReject c) -> "reject " ^ hz c | Some OErr -> "errpd"
     | Some OErrRange -> "errrange" | Some OErrLatest -> "errlatest" | None -> "blocked") in
-  String.concat ";" outs ^ "\t" ^ tsres s.vs.vlast ^ "\t" ^ string_of_int (int_of_nat s.vs.vk)
+  String.concat ";" outs ^ "\t" ^ tsres s.vs.vlast ^ "\t" ^ string_of_int (int_of_nat s.vs.vk) ^ "\t0"   (* the flight's fetch is issued under no caller's context: PD never sees a cancelled one *)
 let sf_impl_k = ref 1    (* the implementation's PD counter after the previous step *)
 let do_sf line args res =
   let s = !sfs in
@@ -280,6 +281,9 @@ let do_sf line args res =
              | Some (bk, read) ->
                  let read = zh read in
                  let kend = (match res with _ :: _ :: ik :: _ -> (try int_of_string ik with _ -> 0) | _ -> 0) in
+                 (* a caller whose own context is alive and that saw no PD failure: a read ts issued before its call is accepted *)
+                 if not (Hashtbl.mem s.excused t) && bk > 0 && (read <=! sf_pd s (nat_of (bk - 1))) then
+                   prop "validate_live_ctx_accepts" (o = "accept") line ("validator " ^ string_of_int t ^ " (own ctx alive, no PD failure) returned " ^ o);
                  if String.length o >= 6 && String.sub o 0 6 = "reject" then
                    prop "validate_accept_complete" (bk = 0 || (sf_pd s (nat_of (bk - 1)) <! read)) line ("validator " ^ string_of_int t ^ " began after " ^ string_of_int bk ^ " timestamps were issued")
                  else if o = "accept" && not (zeq read max_uint64) then
@@ -290,7 +294,7 @@ let do_sf line args res =
   (match args with
   | ["begin"; _id; mode; base; stride] ->
       incr ncases; sf_impl_k := 1;
-      let s = { vs = init_vsys (nat_of 8); modeE = (mode = "E"); base = zh base; stride = zh stride; begk = Hashtbl.create 8; nsp = 0; reported = Hashtbl.create 8 } in
+      let s = { vs = init_vsys (nat_of 8); modeE = (mode = "E"); base = zh base; stride = zh stride; begk = Hashtbl.create 8; nsp = 0; reported = Hashtbl.create 8; excused = Hashtbl.create 8 } in
       sfs := s;
       sf_ev s EIssueEnv; sf_ev s (EPublish O)
   | ["issue"] -> sf_ev s EIssueEnv; after_step ()
@@ -299,8 +303,11 @@ let do_sf line args res =
       let t = s.nsp in s.nsp <- t + 1;
       Hashtbl.replace s.begk t (!sf_impl_k, read);
       sf_ev s (EBegin (nat_of t, zh read, stale = "1")); sf_quiesce s; after_step ()
-  | ["release"; r] -> sf_release s (r = "ok"); after_step ()
-  | ["cancel"; t] -> sf_ev s (ECancel (nat_of (int_of_string t))); sf_quiesce s; after_step ()
+  | ["release"; r] ->
+      if r <> "ok" then for t = 0 to s.nsp - 1 do if not (Hashtbl.mem s.reported t) then Hashtbl.replace s.excused t () done;
+      sf_release s (r = "ok"); after_step ()
+  | ["cancel"; t] -> Hashtbl.replace s.excused (int_of_string t) ();
+      sf_ev s (ECancel (nat_of (int_of_string t))); sf_quiesce s; after_step ()
   | ["end"] -> while s.vs.flight <> None do sf_release s true done; after_step ()
   | _ -> ());
   remember_k ()
